@@ -4,7 +4,7 @@ CONSTANTS
   Cycles = {31250}
   MaxLen = 3
   MaxIter = 2
-  MaxOps = 3
+  MaxOps = 2
 INVARIANT FirstFound
 INVARIANT UnsupportedIgnored
 INVARIANT Raises
